@@ -470,6 +470,15 @@ def pre(tier):
 # imported call-protocol jobs: the same real functions carry this property's clause in another unit's harness
 import importlib as _il
 JOBS = list(JOBS) + [j for j in _il.import_module("units.c11").JOBS if "quick" in j.tiers and not j.name.endswith(".forwarders")]
+# a pthread entry point behaves like its system counterpart only if the body it forwards to keeps its contract: the jobs
+# of the bodies behind the supported subset (create/join/detach, mutex, condition variable, barrier, once) are part of
+# this check; the jobs themselves belong to C01, C04, C05, C06, C12, C14
+_seen = set(j.name for j in JOBS)
+for _u in ("c01", "c04", "c05", "c06", "c12", "c14"):
+    for _j in _il.import_module("units." + _u).JOBS:
+        if "quick" in _j.tiers and not _j.name.endswith(".forwarders") and _j.name not in _seen:
+            _seen.add(_j.name)
+            JOBS.append(_j)
 META = {
  "level": "other",
  "level_text": "Adapter layer only. Contracts on the real text of src/myth_wrap_pthread.c (link-time-wrapping build; the preloading build is "
